@@ -142,6 +142,12 @@ def unary_exprs(t):
             if w <= 5 or (hi - lo) in (0, 1, w - 1) or lo == 0 or hi == w - 1:
                 out.append(('slice', a, hi, lo))
     out += [('msb', a, None), ('lsb', a, None)]
+    if w >= 3:
+        # multi-index subscripts: slice parts of >=2 bits, before / after single indices, overlapping, repeated
+        out.append(('multi', a, ((w - 1, w - 2), 0)))
+        out.append(('multi', a, (0, (w - 1, 1))))
+        out.append(('multi', a, ((1, 0), (w - 1, 1))))
+        out.append(('multi', a, (w - 1, 0, 1)))
     for n in range(1, w + 1):
         out += [('msb', a, n), ('lsb', a, n)]
     # views then arithmetic, slice of slice
